@@ -165,62 +165,41 @@ func (e *BinaryOpExpr) execEqualBatch(chunk []KVPair, not bool, ctx *ExecuteCtx)
 	if err != nil {
 		return nil, err
 	}
-	var (
-		isStr  = false
-		isInt  = false
-		isBool = false
-	)
 	if len(chunk) == 0 {
 		return nil, nil
 	}
 
-	switch rleft[0].(type) {
-	case string, []byte:
-		isStr = true
-	case int, int8, int16, int32, int64, uint, uint8, uint16, uint32, uint64, float32, float64:
-		isInt = true
-	case bool:
-		isBool = true
-	default:
-		return nil, NewExecuteError(e.GetPos(), "= operator left expression has wrong type")
-	}
-
+	// The kind of comparison is chosen pair by pair, as execEqual does: the left
+	// operand's dynamic type may differ between the pairs of a chunk.
 	for i := 0; i < len(chunk); i++ {
-		if isStr {
+		var equal bool
+		switch lval := rleft[i].(type) {
+		case string, []byte:
 			left, lok := convertToByteArray(rleft[i])
 			right, rok := convertToByteArray(rright[i])
 			if !lok || !rok {
 				return nil, NewExecuteError(e.GetPos(), "= operator left or right expression has wrong type")
 			}
-			if not {
-				rleft[i] = !bytes.Equal(left, right)
-			} else {
-				rleft[i] = bytes.Equal(left, right)
-			}
-		}
-		if isInt {
+			equal = bytes.Equal(left, right)
+		case int, int8, int16, int32, int64, uint, uint8, uint16, uint32, uint64, float32, float64:
 			// numbers compare numerically, an integer and a float as floats
-			equal, err := execNumberCompare(rleft[i], rright[i], "=")
+			equal, err = execNumberCompare(rleft[i], rright[i], "=")
 			if err != nil {
 				return nil, NewExecuteError(e.GetPos(), "= operator left or right expression has wrong type")
 			}
-			if not {
-				rleft[i] = !equal
-			} else {
-				rleft[i] = equal
-			}
-		}
-		if isBool {
-			left, lok := rleft[i].(bool)
+		case bool:
 			right, rok := rright[i].(bool)
-			if !lok || !rok {
+			if !rok {
 				return nil, NewExecuteError(e.GetPos(), "= operator left or right expression has wrong type")
 			}
-			if not {
-				rleft[i] = left != right
-			} else {
-				rleft[i] = left == right
-			}
+			equal = lval == right
+		default:
+			return nil, NewExecuteError(e.GetPos(), "= operator left expression has wrong type")
+		}
+		if not {
+			rleft[i] = !equal
+		} else {
+			rleft[i] = equal
 		}
 	}
 	return rleft, nil
